@@ -224,6 +224,23 @@ def roundtrip(R, tmp, group, recipe, bpm, check=("notes", "name", "instr", "mete
         else:
             R.fail(group, "reading-the-file-back", what, inputs)
         return
+    # the composition read from the PREVIOUS file is still alive: reading this file must not have changed it
+    prev = getattr(roundtrip, "prev", None)
+    if prev is not None:
+        p_back, p_tracks, p_flat, p_inputs = prev
+        try:
+            now_flat = [flat_read(t) for t in p_back.tracks]
+        except Exception as e:  # noqa
+            now_flat = "flattening raised %s: %s" % (type(e).__name__, e)
+        if p_back.tracks is back.tracks or [id(t) for t in p_back.tracks] != p_tracks or now_flat != p_flat:
+            R.fail(group, "same-number-of-tracks", "the composition read from the file before (%d tracks) has %d tracks "
+                   "after this file was read%s" % (len(p_tracks), len(p_back.tracks),
+                                                   " (both compositions hold ONE track list)" if p_back.tracks is back.tracks else ""),
+                   dict(first=p_inputs, then=inputs))
+    try:
+        roundtrip.prev = (back, [id(t) for t in back.tracks], [flat_read(t) for t in back.tracks], inputs)
+    except Exception:  # noqa
+        roundtrip.prev = None
     if "tempo" in check and bpm_back != bpm:
         R.fail(group, "tempo-read-back-equals-tempo-written", "bpm %r written, %r read back" % (bpm, bpm_back), inputs)
     if len(back.tracks) != len(specs):
